@@ -1821,6 +1821,9 @@ func exec(c px.Context, op string, args []sx.Sexp) core.Result {
 	if op == "fnover" {
 		return execFnOver(c, args)
 	}
+	if op == "ifacecov" {
+		return execIfaceCov(c, args)
+	}
 	if op == "nested" {
 		return execNested(c, args)
 	}
